@@ -129,6 +129,28 @@ impl Store {
     }
 }
 
+/// Verification hook (compiled only with `--cfg nomt_verif`): a store over `file` whose free list is given
+/// by its portions (tail portion first, items bottom of the stack first) instead of being read from the file.
+#[cfg(nomt_verif)]
+impl Store {
+    pub fn verif_with_free_list(
+        file: Arc<File>,
+        bump: PageNumber,
+        portions: Vec<(u32, Vec<u32>)>,
+    ) -> std::io::Result<Self> {
+        let file_size = file.metadata()?.size() as usize;
+        let sync = StoreSync {
+            free_list: FreeList::verif_from_portions(portions),
+            bump,
+            max_bump: PageNumber((file_size / PAGE_SIZE) as u32),
+        };
+        Ok(Store {
+            file,
+            sync: Arc::new(Mutex::new(sync)),
+        })
+    }
+}
+
 /// A convenience wrapper around a [`Store`]. This wraps the page pool, along with
 /// the store.
 #[derive(Clone)]
